@@ -48,6 +48,7 @@ func init() {
 		return f["for-multi"] > 0 || f["if-elseif-later"] > 0 || f["for-if-rejected"] > 0 || f["for-else"] > 0
 	})
 	p.Run = func(c *Ctx) {
+		runScale(c, sub, "C06")
 		// complete grid: length 0..8 x container kind x {plain, if, else, if+else}
 		meta := func() []*m.N {
 			var out []*m.N
